@@ -12,6 +12,7 @@
 -/
 import SoundeventModel.Ops.Common
 import SoundeventModel.Validate
+import SoundeventModel.ValidateTactics
 namespace SE.Ops.C03
 open Lean SE SE.Validate
 
